@@ -177,6 +177,23 @@ static inline Prod operator*(const SVectorBase<R>& row, const VectorBase<R>& x)
    return c05_dot(row, x.val == gp_kout && g_kcalls == 1 && x.role == ROLE_KCOPY && x.dimen == g_nc);
 }
 #endif
+#if defined(INST_MULTT_ROW)
+/* x * vec (dense * sparse).  Unit vector e_r (one entry (r, 1.0), ledger offset 0): the product IS the cell x[r].  LP columns:
+ * DOT, an uninterpreted function of its operands: the ghost token v_dot for the column the specification names at the ghost
+ * position (the unscaled column g_dot_src iff unscaling, the solver's column otherwise) times the copy of the input vector;
+ * an arbitrary value otherwise */
+static inline R operator*(const VectorBase<R>& x, const SVectorBase<R>& v)
+{
+   bool xok = x.role == ROLE_FIRST && x.val == gp_s1;
+   if(v.kind == V_UNIT && !v.neg && xok)
+   {
+      __CPROVER_assert(0 <= v.src && v.src < x.dimen, "unit vector index within the dense vector");
+      return x.val[v.src];
+   }
+   if(v.kind == (g_scale ? V_LPCOL_UNSCALED : V_LPCOL) && v.src == g_dot_src && !v.neg && xok) { g_dot_hits = 1; return v_dot; }
+   return nondet_ll();
+}
+#endif
 #if defined(INST_MULT_ROW)
 /* scalar * sparse vector (basevectors.h; reached only by seeded faults that restore the sparse accumulator) */
 static inline DSVectorBase<R> operator*(R a, const SVectorBase<R>& v)
@@ -293,6 +310,27 @@ extern "C" int w_btv_row(R* rhs, R* sol, int unscale, int n, int nc, int isScale
    e.init(h, n, nc, isScaled, baseInfo, baseNum, rowexp, colexp, s1, s2, xidx, kout, bind, dsv, dsi);
    h.rhs = rhs; h.sol = sol; h.unscale = unscale != 0;
    gp_rhs = rhs; gp_sol = sol;
+   return h.body() ? 1 : 0;
+}
+#endif
+
+#if defined(INST_MULTT_ROW)
+struct H : Host
+{
+   R* vec; bool unscale;
+   bool body()
+   {
+#include SLICE
+      return true;
+   }
+};
+extern "C" int w_multt_row(R* vec, int unscale, int n, int nc, int isScaled, R* s1, int* bind, R* dsv, int* dsi)
+{
+   VIN("n", n); VIN("nc", nc); VIN("unscale", unscale); VIN("isScaled", isScaled);
+   Env e; H h;
+   e.init(h, n, nc, isScaled, 0, 0, 0, 0, s1, 0, 0, 0, bind, dsv, dsi);
+   h.vec = vec; h.unscale = unscale != 0;
+   gp_vec = vec;
    return h.body() ? 1 : 0;
 }
 #endif
